@@ -33,6 +33,7 @@ func init() {
 		Rules: []*core.Rule{
 			{ID: "C04.R1", Title: "every escape the four string appenders can emit is accepted, and decoded to the originating byte, by every escape-letter dispatch of the decoder and by unescapeMap", Covers: "strings survive Marshal→Unmarshal", Min: 30, Run: c04r1},
 			{ID: "C04.R2", Title: "intLELookup/intBELookup hold the two digits of their index, pow10i64/pow10u64 hold 10^i, hexToInt inverts hex", Covers: "integers and \\u escapes survive the round trip", Min: 250, Run: c04r2},
+			{ID: "C17.R4", Title: "decodeRuneInString returns lineSepState/paragraphSepState only under s[0]==0xE2, s[1]==0x80 and s[2]==0xA8/0xA9", Covers: "only U+2028/U+2029 are rewritten as \\u2028/\\u2029; every other character keeps its bytes", Min: 2, Run: c17r4},
 			{ID: "C04.R3", Title: "every base64 call in encoder and decoder uses the same Encoding object", Covers: "[]byte survives the round trip", Min: 2, Run: c04r3},
 		},
 	})
@@ -157,6 +158,7 @@ func init() {
 		NotCovered: "position-dependent behaviour of the 8-byte scan, surrogate-pair arithmetic, equality with encoding/json's decoded string.",
 		Rules: []*core.Rule{
 			{ID: "C17.R1", Title: "per appender: needEscape* table marks exactly the bytes its variant must escape, the SWAR mask has one term per marked ASCII class plus the high-bit term, every marked ASCII byte has an escaping case", Covers: "no raw control/quote/backslash (and <,>,& under HTML escaping) in output", Min: 1100, Run: c17r1},
+			{ID: "C17.R4", Title: "decodeRuneInString returns lineSepState/paragraphSepState only under s[0]==0xE2, s[1]==0x80 and s[2]==0xA8/0xA9", Covers: "only U+2028/U+2029 are rewritten as \\u2028/\\u2029; every other character keeps its bytes", Min: 2, Run: c17r4},
 			{ID: "C17.R3", Title: "decode_rune.go `first` equals the UTF-8 lead-byte classification", Covers: "invalid UTF-8 is recognised (replaced by U+FFFD)", Min: 256, Run: c17r3},
 		},
 	})
